@@ -23,6 +23,42 @@ static const unsigned char REGBASE[2] = {0x10, 0x20};
 static const size_t GUARD = 8;
 
 static unsigned char* reg[2];   // each malloc'ed: GUARD | data | GUARD   (ASan redzones follow)
+
+// Every attached range is handed to Buffer as an exactly sized heap copy of the region bytes, so that
+// ASan reports any access outside the *attached range* (not merely outside the region); the copy is
+// compared with its source after every op (a store into attached memory = FAULT) and lives until `reset`.
+struct Att { unsigned char* block; unsigned char* ptr; size_t len; int r; size_t off; };
+static Att* atts = 0;
+static size_t natt = 0, capatt = 0;
+
+static unsigned char* attachCopy(int r, size_t off, size_t len)
+{
+  if(natt == capatt)
+  {
+    capatt = capatt ? capatt * 2 : 64;
+    atts = (Att*)realloc(atts, capatt * sizeof(Att));
+  }
+  Att& a = atts[natt++];
+  a.block = (unsigned char*)malloc(len ? len : 1);
+  a.ptr = len ? a.block : a.block + 1;   // empty range: one-past pointer, every access is out of bounds
+  a.len = len; a.r = r; a.off = off;
+  memcpy(a.ptr, reg[r] + GUARD + off, len);
+  return a.ptr;
+}
+
+static void freeAttached()
+{
+  for(size_t i = 0; i < natt; ++i) free(atts[i].block);
+  natt = 0;
+}
+
+static bool attachedIntact()
+{
+  for(size_t i = 0; i < natt; ++i)
+    if(memcmp(atts[i].ptr, reg[atts[i].r] + GUARD + atts[i].off, atts[i].len) != 0)
+      return false;
+  return true;
+}
 alignas(Buffer) static unsigned char storage[NV][sizeof(Buffer)];
 static Buffer* var[NV];
 
@@ -33,6 +69,7 @@ static void resetAll()
     if(var[i]) var[i]->~Buffer();
     var[i] = new(storage[i]) Buffer;
   }
+  freeAttached();
   for(int r = 0; r < 2; ++r)
   {
     free(reg[r]);
@@ -57,6 +94,12 @@ static void observe()
   if(!guardsIntact())
   {
     printf("FAULT guard");
+    hxEndLine();
+    return;
+  }
+  if(!attachedIntact())
+  {
+    printf("FAULT attached-write");
     hxEndLine();
     return;
   }
@@ -102,7 +145,12 @@ int main()
     {
       if(v != w) { var[v]->~Buffer(); new(storage[v]) Buffer(*var[w]); }
     }
-    else if(hxIs(l, "attach", 4)) var[v]->attach(reg[hxNum(l, 2)] + GUARD + hxNum(l, 3), hxNum(l, 4));
+    else if(hxIs(l, "attach", 4))
+    {
+      unsigned long r = hxNum(l, 2), off = hxNum(l, 3), n = hxNum(l, 4);
+      if(r >= 2 || off + n > REGLEN[r]) { printf("bad-op"); hxEndLine(); continue; }
+      var[v]->attach(attachCopy((int)r, off, n), n);
+    }
     else if(hxIs(l, "assignb", 2)) *var[v] = *var[w];
     else if(hxIs(l, "assign", 2)) { d = hxBytes(l.tok[2], len); var[v]->assign(d, len); }
     else if(hxIs(l, "prepend", 2)) { d = hxBytes(l.tok[2], len); var[v]->prepend(d, len); }
@@ -127,5 +175,9 @@ int main()
     free(d);
     observe();
   }
+  for(int i = 0; i < NV; ++i) var[i]->~Buffer();
+  freeAttached();
+  free(atts);
+  for(int r = 0; r < 2; ++r) free(reg[r]);
   return 0;
 }
